@@ -465,3 +465,54 @@ def path_expand(stmts, upto, expr, atoms, depth=6):
                     return self.generic_visit(node)
         return T().visit(copy.deepcopy(e))
     return ast.fix_missing_locations(rec(expr, depth))
+
+
+def _clone_expr(node):
+    if isinstance(node, list):
+        return [_clone_expr(x) for x in node]
+    if not isinstance(node, ast.AST):
+        return node
+    new = node.__class__()
+    for field, val in ast.iter_fields(node):
+        setattr(new, field, _clone_expr(val))
+    for attr in ("lineno", "col_offset", "end_lineno", "end_col_offset"):
+        if hasattr(node, attr):
+            setattr(new, attr, getattr(node, attr))
+    return new
+
+
+def path_env(stmts, upto=None):
+    """Static-single-assignment reading of one execution: name -> expression (over the function's inputs) that the
+    name holds just before statement ``upto`` (at the end of the path when None).  Unlike path_value / path_expand a
+    re-definition in terms of the old value (`t = t.type`) is substituted with the value *before* it, so the result
+    is exact for the path.  Names assigned by anything but a simple `name = expr` become opaque (`$name@line`)."""
+    env = {}
+    for st in stmts:
+        if st is upto:
+            break
+        if isinstance(st, ast.Assign) and len(st.targets) == 1 and isinstance(st.targets[0], ast.Name):
+            env[st.targets[0].id] = path_subst(st.value, env)
+        elif isinstance(st, ast.AnnAssign) and isinstance(st.target, ast.Name) and st.value is not None:
+            env[st.target.id] = path_subst(st.value, env)
+        elif isinstance(st, (ast.Assign, ast.AugAssign, ast.AnnAssign, ast.For, ast.AsyncFor, ast.With, ast.AsyncWith)):
+            for n in ast.walk(st):
+                if isinstance(n, ast.Name) and isinstance(n.ctx, ast.Store):
+                    env[n.id] = ast.Name(id="$%s@%d" % (n.id, getattr(st, "lineno", 0)), ctx=ast.Load())
+    return env
+
+
+def path_subst(expr, env):
+    """expr with every local of env replaced by its path value (comprehension / lambda variables are left alone)."""
+    bound = set()
+    for n in ast.walk(expr):
+        if isinstance(n, ast.comprehension):
+            bound |= {x.id for x in ast.walk(n.target) if isinstance(x, ast.Name)}
+        elif isinstance(n, ast.Lambda):
+            bound |= {a.arg for a in n.args.posonlyargs + n.args.args + n.args.kwonlyargs}
+
+    class T(ast.NodeTransformer):
+        def visit_Name(self, node):
+            if isinstance(node.ctx, ast.Load) and node.id in env and node.id not in bound:
+                return _clone_expr(env[node.id])
+            return node
+    return ast.fix_missing_locations(T().visit(_clone_expr(expr)))
